@@ -212,6 +212,7 @@ def role_slots(role, name):
         'outdir': [('target', 'od/' + name + '/o.txt'), ('orderonly', 'od/' + name)],
         'copy': [('target', 'cp/' + name), ('prereq', 'S/cp/' + name)],
         'csrc': [('prereq', 'S/' + name + '.c'), ('target', 'cs.int/' + name + '.o')],
+        'csrcflat': [('prereq', 'S/' + name + '.c'), ('target', name + '.o')],
         'find': [('dirdep', 'S/fd/' + name), ('prereq', 'S/fd/' + name + '/a.in'),
                  ('target', 'found/fd/' + name + '/a.in'), ('orderonly', 'found/fd/' + name)],
         # the walked directory only as a prerequisite: outputs are plainly named (so names that
@@ -224,7 +225,7 @@ def make_witness(name, scratch, env):
     """-> {role: {slot path: encoding or None}}"""
     res = {}
     cache = {}
-    for role in ROLES + ['find', 'findsrc']:
+    for role in ROLES + ['find', 'findsrc', 'csrcflat']:
         res[role] = {}
         for kind, path in role_slots(role, name):
             if (kind, path) not in cache:
@@ -238,6 +239,7 @@ def make_witness(name, scratch, env):
         res['csrc']['gcc depfile'] = 'ok' if ok else None
     else:
         res['csrc']['gcc depfile'] = None
+    res['csrcflat']['gcc depfile'] = res['csrc']['gcc depfile']
     return res
 
 
@@ -246,7 +248,7 @@ def feasible(backend, role, name, wit):
         # the manifest language can escape everything in a path except `|` (manual: $$, $space, $:)
         if '|' in name:
             return False
-        if role in ('find', 'findsrc', 'csrc'):
+        if role in ('find', 'findsrc', 'csrc', 'csrcflat'):
             # the depfile bfg9000 writes is read through refninja's deliberately partial depfile
             # dialect (Appendix A): only names needing no backslash except before space / #
             return not any(c in name for c in '?*[]%:|\t\\') and not name.startswith('~')
@@ -281,6 +283,12 @@ def role_decl(role, name):
         return (["default(executable('cs', [%r]))" % (name + '.c')],
                 {name + '.c': '#include "csrc_plain.h"\nint main(){return 0;}\n', 'csrc_plain.h': '#define P 1\n'},
                 ['cs', 'cs.int/' + name + '.o'], name + '.c')
+    if role == 'csrcflat':
+        # the same without intermediate directories: the object sits in the build root, where a
+        # name starting with '-' needs a ./ to remain a file name
+        return (["project('flat', intermediate_dirs=False)", "default(executable('csf', [%r]))" % (name + '.c')],
+                {name + '.c': '#include "csrc_plain.h"\nint main(){return 0;}\n', 'csrc_plain.h': '#define P 1\n'},
+                ['csf', name + '.o'], name + '.c')
     raise KeyError(role)
 
 
@@ -351,7 +359,7 @@ def run_roles(root, backend, name, roles):
         elif ran != set(expect[r]):
             res[r] = 'after modifying %r the build re-made %r, expected %r' % (prereq[r], sorted(ran),
                                                                                  expect[r])
-        elif r == 'csrc':
+        elif r in ('csrc', 'csrcflat'):
             # the oddly named OBJECT's compiler-written depfile must be read back: a plainly named
             # header it includes changes
             proj.modify(os.path.join(pr.src, 'csrc_plain.h'))
@@ -609,6 +617,11 @@ def _shard(arg):
                 excluded.append('find')
             results['install'] = run_install(os.path.join(root, 'p'), backend, name)
             n += 1
+            if feasible(backend, 'csrcflat', name, wit):
+                results['csrcflat'] = run_roles(os.path.join(root, 'p'), backend, name, ['csrcflat'])['csrcflat']
+                n += 1
+            else:
+                excluded.append('csrcflat')
             if do_find == 'all' or len(name) >= 3:
                 if header_feasible(backend, name + '.h', root, env):
                     results['header'] = run_header(os.path.join(root, 'p'), backend, name)
@@ -681,7 +694,7 @@ def run(ctx):
              'a hand-written reference Makefile (search over raw/backslash encodings per special character, run by the '
              'real make) can express the name in every slot the role uses; for Ninja when the name has no `|`. '
              'distinct = names' % (len(nl), '; all pairs of special characters xc1c2y' if ctx.thorough else '',
-                                   ROLES + ['find', 'findsrc', 'install', 'header (real gcc + depfixer)']),
+                                   ROLES + ['csrcflat', 'find', 'findsrc', 'install', 'header (real gcc + depfixer)']),
         samples=samples or [dict(name=nl[0])],
         exhaustive=True, demanded=demanded, excluded_infeasible=excluded,
         excluded_names={k: ''.join(sorted(set(''.join(c for c in n if not c.isalnum()) for n in v)))[:80]
@@ -698,7 +711,9 @@ def replay(rec):
     root = os.path.join(core.worker_dir(), 'c04r')
     shutil.rmtree(root, ignore_errors=True)
     os.makedirs(root)
-    if c['role'] == 'header':
+    if c['role'] == 'csrcflat':
+        v = run_roles(os.path.join(root, 'p'), c['backend'], c['name'], ['csrcflat'])['csrcflat']
+    elif c['role'] == 'header':
         v = run_header(os.path.join(root, 'p'), c['backend'], c['name'])
     elif c['role'] == 'install':
         v = run_install(os.path.join(root, 'p'), c['backend'], c['name'])
